@@ -1,0 +1,178 @@
+//go:build verif
+
+package ecdsa
+
+import (
+	"crypto/elliptic"
+	"io"
+	"math/big"
+
+	. "github.com/cloudflare/pat-go/internal/vspec"
+)
+
+var _ io.Reader
+var _ big.Int
+
+// ---------------------------------------------------------------------------
+// Specification of ECDSA (FIPS 186-4 section 6.4) over the abstract group of vspec.
+
+// SpecHashToInt: the leftmost min(N.BitLen, 8*len(hash)) bits of the digest as an integer.
+//
+//@ spec
+func SpecHashToInt(hash string, n Mathint) Mathint {
+	orderBits := BitLenOf(n)
+	orderBytes := (orderBits + 7) / 8
+	if len(hash) > orderBytes {
+		hash = hash[:orderBytes]
+	}
+	ret := BE(hash)
+	excess := len(hash)*8 - orderBits
+	if excess > 0 {
+		ret = RshOf(ret, excess)
+	}
+	return ret
+}
+
+// SpecECDSAEq: the verification equation for public key (qx, qy), message representative e and
+// signature (r, s) with 0 < r, s < N.
+//
+//@ spec
+func SpecECDSAEq(c elliptic.Curve, qx, qy, e, r, s Mathint) bool {
+	n := ECOrder(c)
+	w := ModInv(s, n)
+	u1 := (e * w) % n
+	u2 := (r * w) % n
+	x := ECAddX(c, ECBaseX(c, u1), ECBaseY(c, u1), ECMulX(c, u2, qx, qy), ECMulY(c, u2, qx, qy))
+	y := ECAddY(c, ECBaseX(c, u1), ECBaseY(c, u1), ECMulX(c, u2, qx, qy), ECMulY(c, u2, qx, qy))
+	return !(x == 0 && y == 0) && x%n == r
+}
+
+// SpecVerifies: what Verify must decide, for every integer r and s.
+//
+//@ spec
+func SpecVerifies(c elliptic.Curve, qx, qy Mathint, hash string, r, s Mathint) bool {
+	n := ECOrder(c)
+	return r > 0 && s > 0 && r < n && s < n && SpecECDSAEq(c, qx, qy, SpecHashToInt(hash, n), r, s)
+}
+
+// specKeyOK: a public key object whose point lies on its curve.
+//
+//@ spec
+func specKeyOK(pub *PublicKey) bool {
+	return pub != nil && pub.Curve != nil && pub.X != nil && pub.Y != nil && ECOnCurve(pub.Curve, BigVal(pub.X), BigVal(pub.Y))
+}
+
+// Curves with assembly back ends may offer Inverse and CombinedMult; they compute the same functions.
+//
+//@ iface ($PKG.invertible).Inverse func(c invertible, k *big.Int) (r *big.Int)
+//@ requires k != nil
+//@ ensures r != nil && fresh(r) && BigVal(r) == ModInv(BigVal(k), ECOrder(c.(elliptic.Curve)))
+//@ assigns none
+//@ end
+
+//@ iface ($PKG.combinedMult).CombinedMult func(c combinedMult, bigX *big.Int, bigY *big.Int, baseScalar []byte, scalar []byte) (x *big.Int, y *big.Int)
+//@ requires bigX != nil && bigY != nil
+//@ let cv = c.(elliptic.Curve)
+//@ let b = BE(string(baseScalar))
+//@ let k = BE(string(scalar))
+//@ ensures x != nil && y != nil && fresh(x) && fresh(y) && x != y
+//@ ensures BigVal(x) == ECAddX(cv, ECBaseX(cv, b), ECBaseY(cv, b), ECMulX(cv, k, BigVal(bigX), BigVal(bigY)), ECMulY(cv, k, BigVal(bigX), BigVal(bigY)))
+//@ ensures BigVal(y) == ECAddY(cv, ECBaseX(cv, b), ECBaseY(cv, b), ECMulX(cv, k, BigVal(bigX), BigVal(bigY)), ECMulY(cv, k, BigVal(bigX), BigVal(bigY)))
+//@ assigns none
+//@ end
+
+//@ func hashToInt(hash []byte, c elliptic.Curve) (e *big.Int)
+//@ props C03 C13 C16
+//@ requires c != nil
+//@ ensures e != nil && fresh(e) && BigVal(e) == SpecHashToInt(string(hash), ECOrder(c))
+//@ assigns none
+//@ end
+
+// Verify accepts exactly the signatures the FIPS 186-4 equation accepts, for every pair of integers
+// (zero, negative and >= N included).
+//
+//@ func Verify(pub *PublicKey, hash []byte, r *big.Int, s *big.Int) (ok bool)
+//@ props C03 C06 C07 C13 C16 C17
+//@ requires specKeyOK(pub) && r != nil && s != nil
+//@ ensures ok == SpecVerifies(pub.Curve, BigVal(pub.X), BigVal(pub.Y), string(hash), BigVal(r), BigVal(s))
+//@ assigns none
+//@ end
+
+// CreateKey: the key pair for the scalar given as big-endian bytes.
+//
+//@ func CreateKey(c elliptic.Curve, privateKeyBytes []byte) (priv *PrivateKey, err error)
+//@ props C03 C06 C08 C12 C16
+//@ requires c != nil
+//@ ensures err == nil && priv != nil && fresh(priv) && priv.Curve == c && priv.D != nil && fresh(priv.D) && BigVal(priv.D) == BE(string(privateKeyBytes))
+//@ ensures priv.X != nil && priv.Y != nil && BigVal(priv.X) == ECBaseX(c, BE(string(privateKeyBytes))) && BigVal(priv.Y) == ECBaseY(c, BE(string(privateKeyBytes)))
+//@ assigns none
+//@ end
+
+// ---------------------------------------------------------------------------
+// Key blinding (draft-irtf-cfrg-signature-key-blinding)
+
+// SpecH2F(c, msg): hash_to_field(msg) with expand_message_xmd(H_c), DST "ECDSA Key Blind", modulus N_c and
+// security length L_c, where (H, L) = (SHA-256, 32) P-224, (SHA-256, 48) P-256, (SHA-384, 72) P-384, (SHA-512, 98) P-521.
+//
+//@ spec opaque
+func SpecH2F(c elliptic.Curve, msg string) Mathint { return 0 }
+
+//@ spec opaque
+func SpecCurveSupported(c elliptic.Curve) bool { return false }
+
+//@ lemma auto trusted
+//@ ensures SpecH2F(c, msg) >= 0 && SpecH2F(c, msg) < ECOrder(c)
+func axH2FRange(c elliptic.Curve, msg string) {}
+
+//@ lemma auto trusted
+//@ ensures SpecCurveSupported(CurveP384())
+func axP384Supported() {}
+
+// SpecBlindScalar: the blinding factor for blind key scalar d and context ctx.
+//
+//@ spec
+func SpecBlindScalar(c elliptic.Curve, d Mathint, ctx string) Mathint {
+	return SpecH2F(c, BEMin(d)+B1(0)+ctx)
+}
+
+// hashBlind is outside the modelled subset (it passes a pointer into a local [1]big.Int array to
+// circl's HashToField); its contract is assumed.
+//
+//@ func hashBlind(c elliptic.Curve, sk *PrivateKey, context []byte) (k *big.Int, err error)
+//@ props C08 C12
+//@ trusted array of big.Int values passed to circl group.HashToField
+//@ requires c != nil && sk != nil && sk.D != nil && BigVal(sk.D) >= 0
+//@ ensures (err == nil) == SpecCurveSupported(c)
+//@ ensures err == nil ==> k != nil && fresh(k) && BigVal(k) == SpecBlindScalar(c, BigVal(sk.D), string(context))
+//@ assigns none
+//@ end
+
+//@ func BlindPublicKeyWithContext(c elliptic.Curve, pk *PublicKey, bk *PrivateKey, context []byte) (res *PublicKey, err error)
+//@ props C03 C06 C07 C08 C12 C16 C17
+//@ requires c != nil && pk != nil && pk.X != nil && pk.Y != nil && ECOnCurve(c, BigVal(pk.X), BigVal(pk.Y)) && bk != nil && bk.D != nil && BigVal(bk.D) >= 0
+//@ let k = SpecBlindScalar(c, BigVal(bk.D), string(context))
+//@ ensures (err == nil) == SpecCurveSupported(c)
+//@ ensures err == nil ==> res != nil && fresh(res) && res.Curve == c && res.X != nil && res.Y != nil && res.X != res.Y
+//@ ensures err == nil ==> BigVal(res.X) == ECMulX(c, k, BigVal(pk.X), BigVal(pk.Y)) && BigVal(res.Y) == ECMulY(c, k, BigVal(pk.X), BigVal(pk.Y))
+//@ assigns none
+//@ end
+
+//@ func UnblindPublicKeyWithContext(c elliptic.Curve, pk *PublicKey, bk *PrivateKey, context []byte) (res *PublicKey, err error)
+//@ props C03 C08 C12 C16 C17
+//@ requires c != nil && pk != nil && pk.X != nil && pk.Y != nil && ECOnCurve(c, BigVal(pk.X), BigVal(pk.Y)) && bk != nil && bk.D != nil && BigVal(bk.D) >= 0
+//@ requires Invertible(SpecBlindScalar(c, BigVal(bk.D), string(context)), ECOrder(c))
+//@ let k = ModInv(SpecBlindScalar(c, BigVal(bk.D), string(context)), ECOrder(c))
+//@ ensures (err == nil) == SpecCurveSupported(c)
+//@ ensures err == nil ==> res != nil && fresh(res) && res.Curve == c && res.X != nil && res.Y != nil && res.X != res.Y
+//@ ensures err == nil ==> BigVal(res.X) == ECMulX(c, k, BigVal(pk.X), BigVal(pk.Y)) && BigVal(res.Y) == ECMulY(c, k, BigVal(pk.X), BigVal(pk.Y))
+//@ assigns none
+//@ end
+
+//@ func verifyGeneric(pub *PublicKey, c elliptic.Curve, hash []byte, r *big.Int, s *big.Int) (ok bool)
+//@ props C03 C06 C07 C13 C16 C17
+//@ requires specKeyOK(pub) && c == pub.Curve && r != nil && s != nil
+//@ requires BigVal(r) > 0 && BigVal(s) > 0 && BigVal(r) < ECOrder(c) && BigVal(s) < ECOrder(c)
+//@ ensures ok == SpecECDSAEq(c, BigVal(pub.X), BigVal(pub.Y), SpecHashToInt(string(hash), ECOrder(c)), BigVal(r), BigVal(s))
+//@ ensures BigVal(r) == old(BigVal(r)) && BigVal(s) == old(BigVal(s)) && BigVal(pub.X) == old(BigVal(pub.X)) && BigVal(pub.Y) == old(BigVal(pub.Y))
+//@ assigns none
+//@ end
